@@ -28,6 +28,7 @@ from __future__ import annotations
 import os
 import re
 import signal
+from decimal import Decimal
 
 from .. import core, tla
 
@@ -49,8 +50,18 @@ TIERS = {
             ('refs', dict(
                 Templates={"for0"}, MaxN=1, MaxEvents=3, MaxMakers=2, PartialIn={"for0"}, RefIn={"for0"},
                 TwoHoles=True)),
+            # inline functions whose parameters have DIFFERENT declared types, partial applications with a
+            # placeholder that is not the first argument
+            ('typed', dict(
+                Templates={"typ2", "typd", "typ3"}, MaxN=2, MaxEvents=2, MaxMakers=1,
+                PartialIn={"typ2", "typd", "typ3"}, RefIn={"none"}, TwoHoles=True)),
+            # named references to focus-dependent functions made by  source ! name#0  and called later
+            ('focus', dict(
+                Templates={"refpos", "refstr", "refslen", "refnlen", "refname"}, MaxN=3, MaxEvents=3, MaxMakers=0,
+                PartialIn={"none"}, RefIn={"none"}, TwoHoles=False)),
         ],
         hof=[('d2', dict(MaxDepth=2, MaxLen=3, UniverseName='u4', Big=True))],
+        mixed=[('len3', dict(MaxDepth=2, MaxLen=3, UniverseName='u4', Big=True))],
     ),
     'thorough': dict(
         closures=[
@@ -71,8 +82,15 @@ TIERS = {
             ('refs2', dict(
                 Templates={"for0"}, MaxN=1, MaxEvents=4, MaxMakers=2, PartialIn={"for0"}, RefIn={"for0"},
                 TwoHoles=True)),
+            ('typed', dict(
+                Templates={"typ2", "typd", "typ3"}, MaxN=2, MaxEvents=3, MaxMakers=1,
+                PartialIn={"typ2", "typd", "typ3"}, RefIn={"none"}, TwoHoles=True)),
+            ('focus', dict(
+                Templates={"refpos", "refstr", "refslen", "refnlen", "refname"}, MaxN=3, MaxEvents=4, MaxMakers=0,
+                PartialIn={"none"}, RefIn={"none"}, TwoHoles=False)),
         ],
         hof=[('d3', dict(MaxDepth=3, MaxLen=3, UniverseName='u4', Big=True))],
+        mixed=[('len4', dict(MaxDepth=2, MaxLen=4, UniverseName='u4', Big=True))],
     ),
 }
 
@@ -102,8 +120,20 @@ def render(e, args_text: str | None = None) -> str:
     if k == 'if':
         return (f'(if ({render(e["c"], args_text)}) then {render(e["a"], args_text)} '
                 f'else {render(e["b"], args_text)})')
+    if k == 'str':
+        return '"' + e['v'] + '"'
+    if k == 'dlit':
+        return f'{e["v"]}e0'
+    if k == 'instof':
+        return f'({render(e["e"], args_text)} instance of {e["t"]})'
+    if k == 'map':
+        return f'({render(e["s"], args_text)} ! {render(e["r"], args_text)})'
+    if k == 'kids':
+        return f'/r/*[position() le {e["n"]}]'
     if k == 'fun':
-        return 'function(' + ', '.join('$' + p for p in e['params']) + ') { ' + render(e['body'], args_text) + ' }'
+        types = e.get('types') or ['item()*'] * len(e['params'])
+        return 'function(' + ', '.join('$' + p + ('' if t == 'item()*' else ' as ' + t)
+                                       for p, t in zip(e['params'], types)) + ') { ' + render(e['body'], args_text) + ' }'
     if k == 'ref':
         return f'{e["name"]}#{e["arity"]}'
     if k == 'call':
@@ -173,6 +203,8 @@ def project_item(x):
         return ('b', x)
     if isinstance(x, int):
         return ('i', int(x))
+    if isinstance(x, Decimal):
+        return ('c', int(x)) if x == int(x) else ('other', repr(x))
     if isinstance(x, float):
         if x != x or x in (float('inf'), float('-inf')) or x != int(x):
             return ('other', repr(x))
@@ -247,8 +279,18 @@ def parsers():
     return _P
 
 
-def run_xpath(text: str, version: str, variables=None):
+DOC = '<r><a>1</a><b>22</b><c>333</c></r>'       # = FnEval!DocKids
+
+
+def doc_root():
+    import xml.etree.ElementTree as ET
+    return ET.XML(DOC)
+
+
+def run_xpath(text: str, version: str, variables=None, doc: bool = False):
     import elementpath
+    if doc:
+        return guarded(lambda: elementpath.select(doc_root(), text, parser=parsers()[version], variables=variables))
     return guarded(lambda: elementpath.select(None, text, parser=parsers()[version], item=1,
                                               variables=variables))
 
@@ -270,8 +312,10 @@ def split_results(items):
 
 def py_arg(a, handles):
     """argument expression -> Python argument (ints; a function handle for the self-passing templates)"""
-    if a['k'] == 'lit':
+    if a['k'] in ('lit', 'str'):
         return a['v']
+    if a['k'] == 'dlit':
+        return float(a['v'])
     if a['k'] == 'index' and a['e']['k'] == 'var' and a['e']['n'] == 'fs':
         return handles[a['j']]
     raise tla.MachineryError(f'no python rendering for argument {a!r}')
@@ -288,11 +332,16 @@ def run_python_api(tpl: dict, n: int, events, version: str):
     text = f'let {binds} return {create}' if binds else create
 
     def body():
-        fs = elementpath.select(None, text, parser=parser_cls, item=1)
+        if tpl.get('doc'):
+            root = doc_root()
+            fs = elementpath.select(root, text, parser=parser_cls)
+            ctx = XPathContext(root=root)
+        else:
+            fs = elementpath.select(None, text, parser=parser_cls, item=1)
+            ctx = XPathContext(root=None, item=1)
         if not isinstance(fs, list):
             fs = [fs]
         handles = {i + 1: f for i, f in enumerate(fs)}
-        ctx = XPathContext(root=None, item=1)
         results = []
         for e in events:
             if e['a'] == 'call':
@@ -369,7 +418,7 @@ def closures_worker(job):
         call_idx = [j for j, e in enumerate(events) if e['a'] == 'call']
         exp = [abstract(v) for v in log]
         imp = [abstract(v) for v in ilog]
-        runs = [('xpath', v, run_xpath(text, v)) for v in ('3.0', '3.1')]
+        runs = [('xpath', v, run_xpath(text, v, doc=bool(tpl.get('doc')))) for v in ('3.0', '3.1')]
         runs.append(('python', '3.1', run_python_api(tpl, n, events, '3.1')))
         for binding, version, out in runs:
             n_eval += 1
@@ -383,7 +432,7 @@ def closures_worker(job):
                         feat = hazards(tpl_id, tpl, n, events, j)
                         feat.update(binding=binding, outcome='value', as_implemented=(obs[q] == imp[q]))
                         fails.append((feat, dict(part='closures', text=text, template=tpl_id, n=n, events=events,
-                                                 binding=binding, parser=version, call=q,
+                                                 binding=binding, parser=version, call=q, doc=bool(tpl.get('doc')),
                                                  tpl=(tpl if binding == 'python' else None)), exp[q], obs[q]))
             else:
                 # the program died: attribute it to the first call the implementation-shaped model poisons,
@@ -395,7 +444,7 @@ def closures_worker(job):
                 predicted = bool(dead) and imp[q][0][1] == code
                 feat.update(binding=binding, outcome=f'{out[0]}:{code}', as_implemented=predicted)
                 fails.append((feat, dict(part='closures', text=text, template=tpl_id, n=n, events=events,
-                                         binding=binding, parser=version, call=q,
+                                         binding=binding, parser=version, call=q, doc=bool(tpl.get('doc')),
                                          tpl=(tpl if binding == 'python' else None)), exp[q], list(out)))
     return n_eval, n_calls, fails
 
@@ -408,7 +457,7 @@ def direct_worker(job):
         text = direct_text(tpl, h, args)
         exp, imp = abstract(val), abstract(ival)
         for v in ('3.0', '3.1'):
-            out = run_xpath(text, v)
+            out = run_xpath(text, v, doc=bool(tpl.get('doc')))
             n_eval += 1
             obs = project(out[1]) if out[0] == 'ok' else None
             if obs != exp:
@@ -417,7 +466,8 @@ def direct_worker(job):
                             lazy_fixed=False, partial_form=None, param_collision=bool(tpl['collision']), order='first',
                             binding='direct', outcome='value' if out[0] == 'ok' else f'{out[0]}:{out[1]}',
                             as_implemented=(obs == imp) if out[0] == 'ok' else (is_poison(imp) and imp[0][1] == out[1]))
-                fails.append((feat, dict(part='direct', text=text, parser=v), exp, obs if obs is not None else list(out)))
+                fails.append((feat, dict(part='direct', text=text, parser=v, doc=bool(tpl.get('doc'))), exp,
+                              obs if obs is not None else list(out)))
     return n_eval, fails
 
 
@@ -446,6 +496,10 @@ def start_tlc(chk: core.Check, tier: dict, parts) -> dict:
         for name, consts in tier['hof']:
             wd = os.path.join(chk.scratch, 'hof-' + name)
             jobs[('hof', name, 'laws')] = ('HOF', tla.cfg_text(consts, invariants=['Laws']), wd, os.path.join(wd, 'g.dot'))
+        for name, consts in tier.get('mixed', []):
+            wd = os.path.join(chk.scratch, 'mixed-' + name)
+            jobs[('mixed', name, 'laws')] = ('HOF', tla.cfg_text(consts, spec='SpecMixed', invariants=['LawsMixed']), wd,
+                                             os.path.join(wd, 'g.dot'))
 
     def one(item):
         key, (module, cfg, wd, dot) = item
@@ -459,7 +513,7 @@ def start_tlc(chk: core.Check, tier: dict, parts) -> dict:
 def run_closures(chk: core.Check, name: str, consts: dict, tlc: dict) -> None:
     wd = os.path.join(chk.scratch, 'closures-' + name)
     dot = os.path.join(wd, 'g.dot')
-    r = tla.require_ok(tlc[('closures', name, 'laws')], f'Closures/{name}', min_distinct=100)
+    r = tla.require_ok(tlc[('closures', name, 'laws')], f'Closures/{name}', min_distinct=50)
     chk.model(f'Closures/{name}', r)
     table = load_table(r.output)
     # the implementation-shaped model must be REFUTED by TLC (the sharing defect as an invariant violation)
@@ -477,6 +531,7 @@ def run_closures(chk: core.Check, name: str, consts: dict, tlc: dict) -> None:
     out = g.out()
     acts = {}
     for _, _, a, _ in g.edges:
+        a = {'TypedCall': 'CallLater', 'TypedPartial': 'Partial'}.get(a, a)     # same actions, typed templates
         acts[a] = acts.get(a, 0) + 1
     for a, c in acts.items():
         FIRED[a] = FIRED.get(a, 0) + c
@@ -697,6 +752,101 @@ def run_hof(chk: core.Check, name: str, consts: dict, tlc: dict) -> None:
     print(f'  HOF/{name}: states={r.distinct} edges={len(jobs)} failing_comparisons={n_fail} tlc={r.wall_s:.1f}s', flush=True)
 
 
+
+# ---------------------------------------------------------------------------------------
+# HOF!SpecMixed: fn:sort with a key over items that are equal as Python values (1, 1.0, 1e0, true(), 0, false())
+
+def mixed_item_text(it) -> str:
+    (k, v), = it.items()
+    return {'i': lambda: str(v), 'c': lambda: f'{v}.0', 'd': lambda: f'{v}e0',
+            'b': lambda: 'true()' if v else 'false()'}[k]()
+
+
+def mixed_py(it):
+    (k, v), = it.items()
+    return {'i': int, 'c': Decimal, 'd': float, 'b': bool}[k](v)
+
+
+def mixed_worker(job):
+    catalog, edges = job
+    import elementpath
+    from elementpath import XPathContext
+    fails, n_eval = [], 0
+    for (src, key, dst) in edges:
+        ftext = render(catalog[key]['e'])
+        stext = '(' + ', '.join(mixed_item_text(x) for x in src) + ')'
+        exp = abstract(dst)
+        runs = [('inline', f'sort({stext}, (), {ftext})', None),
+                ('var', f'let $f := {ftext} return sort({stext}, (), $f)', None),
+                # the sorted items tagged with their type, by the expression itself
+                ('inline-array', f'array:flatten(array:sort(array {{ {stext} }}, (), {ftext}))', None)]
+        for style, text, _ in runs:
+            out = run_xpath(text, '3.1')
+            n_eval += 1
+            obs = project(out[1]) if out[0] == 'ok' else None
+            if obs != exp:
+                fails.append((dict(part='sortmixed', hof='sort', key=key, style=style, src_len=len(src),
+                                   outcome='value' if out[0] == 'ok' else f'{out[0]}:{out[1]}'),
+                              dict(part='sortmixed', text=text, parser='3.1', style=style), exp,
+                              obs if obs is not None else list(out)))
+
+        def api():
+            P = parsers()['3.1']
+            fobj = elementpath.select(None, ftext, parser=P, item=1)
+            return P().get_function('sort', 3)([mixed_py(x) for x in src], [], fobj,
+                                               context=XPathContext(root=None, item=1))
+        out = guarded(api)
+        n_eval += 1
+        obs = project(out[1]) if out[0] == 'ok' else None
+        if obs != exp:
+            fails.append((dict(part='sortmixed', hof='sort', key=key, style='python', src_len=len(src),
+                               outcome='value' if out[0] == 'ok' else f'{out[0]}:{out[1]}'),
+                          dict(part='sortmixed', text=f'get_function("sort", 3)({[mixed_py(x) for x in src]!r}, [], {ftext})',
+                               parser='3.1', style='python-note'), exp, obs if obs is not None else list(out)))
+    return n_eval, fails
+
+
+def run_mixed(chk: core.Check, name: str, consts: dict, tlc: dict) -> None:
+    # the spec orders its four key strings by a table (FnEval!StrRank): cross-check it with codepoint order
+    if sorted(['true', '1', 'false', '0']) != ['0', '1', 'false', 'true']:
+        raise tla.MachineryError('FnEval!StrRank disagrees with codepoint order')
+    dot = os.path.join(chk.scratch, 'mixed-' + name, 'g.dot')
+    r = tla.require_ok(tlc[('mixed', name, 'laws')], f'HOF.SpecMixed/{name}', min_distinct=50)
+    chk.model(f'HOF.SpecMixed/{name}', r)
+    catalog = load_table(r.output, 'catalog')
+    g = tla.load_dot(dot)
+    os.remove(dot)
+    jobs, distinct = [], set()
+    for s_, d_, a, args in g.edges:
+        if a != 'SortMixedA':
+            raise tla.MachineryError(f'unexpected action {a} in SpecMixed')
+        src, dst = g.states[s_]['acc'], g.states[d_]['acc']
+        jobs.append((src, args[0], dst))
+        # non-trivial: two items that are equal as Python values (1, 1.0, 1e0, true() / 0, false()) in the input
+        pys = [mixed_py(x) for x in src]
+        if any(pys[i] == pys[j] and src[i] != src[j] for i in range(len(src)) for j in range(i)):
+            distinct.add((src, args[0]))
+    if not distinct:
+        raise tla.MachineryError('SpecMixed: no input with two Python-equal, XPath-distinct items (vacuous)')
+    jobs.sort(key=lambda e: (e[1], tla.to_tla(e[0])))
+    chk.add('transitions', len(jobs))
+    chk.add('traces_validated_against_impl', len(jobs))
+    chk.add('distinct_nontrivial', len(distinct))
+    e = jobs[len(jobs) // 2]
+    chk.sample(dict(expr=f'sort(({", ".join(mixed_item_text(x) for x in e[0])}), (), {render(catalog[e[1]]["e"])})',
+                    expected=abstract(e[2])))
+    results = core.pool_map(mixed_worker, [(catalog, c) for c in core.chunked(jobs, 32)], procs=PROCS)
+    n_fail = 0
+    for n_eval, fails in results:
+        chk.add('evaluations', n_eval)
+        chk.add('sortmixed_evaluations', n_eval)
+        for feat, case, exp, obs in fails:
+            n_fail += 1
+            chk.fail(feat, case, exp, obs, what=(case['text'] or '')[:300])
+    print(f'  HOF.SpecMixed/{name}: states={r.distinct} edges={len(jobs)} failing_comparisons={n_fail} tlc={r.wall_s:.1f}s',
+          flush=True)
+
+
 PROCS = int(os.environ.get('VERIF_PROCS', '12'))
 DEV_PART = 'all'
 FIRED: dict = {}
@@ -721,7 +871,7 @@ def replay(rec: dict) -> int:
         out = hof_python_api(case['action'], _tup(case['args']), case['src_items'], case['ftext'], case['zeros'])
         got = project(out[1]) if out[0] == 'ok' else out
     else:
-        out = run_xpath(case['text'], case.get('parser', '3.1'))
+        out = run_xpath(case['text'], case.get('parser', '3.1'), doc=bool(case.get('doc')))
         got = project(out[1]) if out[0] == 'ok' else out
         if out[0] == 'ok' and case.get('part') == 'closures' and 'call' in case:
             parts = split_results(got)
@@ -757,6 +907,8 @@ def run(chk: core.Check) -> None:
     if DEV_PART in ('all', 'hof'):
         for name, consts in tier['hof']:
             run_hof(chk, name, consts, tlc)
+        for name, consts in tier.get('mixed', []):
+            run_mixed(chk, name, consts, tlc)
     chk.coverage['exhaustive'] = True
     chk.coverage['rule'] = (
         'Closures: every leaf of the TLC forest (template x 1..3 iterations of one function expression x every '
@@ -764,4 +916,6 @@ def run(chk: core.Check) -> None:
         'through the Python API; non-trivial = more than one function item made by the expression, or a maker event.  '
         'HOF: every edge of the TLC graph (sequence x higher-order function x catalog function [x zero / other sequence]) '
         'is one call, rendered with the function inline, bound to a variable, through parser.get_function, and with the '
-        'source sequence literal or as the nested call chain that produced it; non-trivial = non-empty source sequence.')
+        'source sequence literal or as the nested call chain that produced it; non-trivial = non-empty source sequence.  '
+        'SpecMixed: every sequence up to the bound over 1, 1.0, 1e0, true(), 0, false() x 5 key functions, fn:sort and '
+        'array:sort; non-trivial = the input holds two items equal as Python values but different as XPath items.')
